@@ -82,6 +82,23 @@ def check_roundtrips(tag, m, R, d, out):
         e = ang(fn().rotator, R)
         if not e <= 1e-6:
             out.append(viol(f"C11/roundtrip-{name}", f"{tag}: from_{name}({name}()) differs by {e:.3g} rad"))
+    if n == 1:
+        # one molecule given by a 1-D position and a single (non-stacked) rotation / 1-D representation
+        p1 = np.asarray(pos[0])
+        one = {
+            "Molecules(pos, single Rotation)": lambda: Molecules(p1, R[0]),
+            "from_quat(1-D)": lambda: Molecules.from_quat(p1, R[0].as_quat()),
+            "from_rotvec(1-D)": lambda: Molecules.from_rotvec(p1, R[0].as_rotvec()),
+            "from_matrix((3, 3))": lambda: Molecules.from_matrix(p1, R[0].as_matrix()),
+            "from_euler(1-D)": lambda: Molecules.from_euler(p1, R[0].as_euler(d["seq"], degrees=d["degrees"]), seq=d["seq"], degrees=d["degrees"], order="zyx"),
+        }
+        with warnings.catch_warnings():
+            warnings.simplefilter("ignore")
+            for name, fn in one.items():
+                mm = fn()
+                e = ang(mm.rotator, R) if len(mm) == 1 else np.inf
+                if not (e <= 1e-6 and np.allclose(mm.pos, pos, atol=1e-6)):
+                    out.append(viol("C11/single-molecule-form", f"{tag}: {name} gives {len(mm)} molecule(s), orientation off by {e:.3g} rad"))
     seq, deg = d["seq"], d["degrees"]
     with warnings.catch_warnings():
         warnings.simplefilter("ignore")
@@ -120,10 +137,13 @@ def check_roundtrips(tag, m, R, d, out):
 def check_affine_and_coords(tag, m, pos, R, d, out):
     n = len(R)
     src = np.asarray(d["src"], dtype=np.float64)
+    if d.get("src_dtype", "float64") != "float64":
+        src = np.round(np.abs(src))
     M = R.as_matrix()
     for inverse in (False, True):
         for dst in (None, pos[::-1].copy()):
-            A = m.affine_matrix(np.tile(src, (n, 1)), dst, inverse=inverse)
+            # the source point as float64 or as an unsigned / signed integer array (e.g. derived from a shape)
+            A = m.affine_matrix(np.tile(src, (n, 1)).astype(d.get("src_dtype", "float64")), dst, inverse=inverse)
             if A.shape != (n, 4, 4):
                 out.append(viol("C11/affine-shape", f"{tag}: affine_matrix shape {A.shape}"))
                 continue
@@ -297,6 +317,7 @@ def cases(draw):
         "degrees": draw(st.booleans()),
         "axscale": [draw(st.sampled_from([1.0, 0.5, 3.0, 1e-3, 250.0])), draw(st.sampled_from([1.0, 2.0, 0.1]))],
         "src": [round(draw(st.floats(-20, 20)), 2) for _ in range(3)],
+        "src_dtype": draw(st.sampled_from(["float64", "float64", "float32", "uint16", "int32"])),
         "lshape": draw(gen.box_shapes(1, 5)),
         "lscale": draw(gen.scales),
         "pos32": draw(st.booleans()),
